@@ -119,8 +119,8 @@ class Session:
     def mkid(self, rng=None):
         rng = rng or self.rng
         if self.flavour == "expl":
-            return rng.choice(["X", "Y", 7, 8, None])
-        return None if rng.random() < 0.93 else rng.choice(["X", 7])
+            return rng.choice(["X", "Y", 7, 8, None, 0, ""])
+        return None if rng.random() < 0.93 else rng.choice(["X", 7, 0, ""])
 
     def count(self, k, n=1):
         self.counters[k] = self.counters.get(k, 0) + n
@@ -136,7 +136,8 @@ class Session:
         def rec(h, depth=0):
             if depth > 200:
                 return "DEEP"
-            return [(id(c), id(c.data), c.data_id, getattr(c, "kind", None), dict(c.meta) if c.meta else None, rec(c, depth + 1))
+            return [(id(c), id(c.data), c.data_id, getattr(c, "kind", None), dict(c.meta) if c.meta else None,
+                     id(c.parent), id(c.tree), c.node_id, rec(c, depth + 1))
                     for c in h.children]
 
         try:
@@ -477,6 +478,14 @@ class Session:
                         self.m.top = new
                     else:
                         mp.children = new
+                if op["op"] in ("add", "sibling") and ret is not None and hasattr(ret, "data_id"):
+                    want = op["data_id"] if op.get("data_id") is not None else self.m.rule(op["data"])
+                    try:
+                        if ret.data_id != want:
+                            findings.append(Finding("C02:wrong_data_id", f"new node for data {op['data']!r} (explicit id {op.get('data_id')!r}) "
+                                                                         f"reports data_id {ret.data_id!r}, the rule gives {want!r}"))
+                    except Exception:
+                        pass
                 errs += self.compare()
                 if not errs:
                     kind = outcome.ret[0]
@@ -536,7 +545,11 @@ class Session:
             except RecursionError:
                 pass  # broken structure: the monitors below will report it
         if monitors:
-            findings += self.monitors(trust_model=followed)
+            mf = self.monitors(trust_model=followed)
+            if mf and outcome.kind == "refuse" and exc is not None and not any(f.prop == "C13" for f in findings):
+                findings.append(Finding("C13:refusal_corrupted_state",
+                                        f"after a refused call ({outcome.why}: {type(exc).__name__}) the tree fails {mf[0].tag}: {mf[0].msg}"))
+            findings += mf
         return findings
 
     def monitors(self, trust_model=True):
@@ -736,7 +749,7 @@ def _gen_kind(s, rng, k, nodes, hostile, allow_unspec):
             op["keep_children"] = True
         elif r < 0.6:
             op["with_clones"] = True
-        elif r < 0.65 and allow_unspec:
+        elif r < 0.68:
             op["keep_children"] = True
             op["with_clones"] = True
         return op
